@@ -30,6 +30,10 @@ LEXEMES = {
 TERMS = list(LEXEMES)
 ALPHABET = ["1", "m", "Å", "ₐ", "μ", ".", "-", "+", "e", "^", "²", "⁻", "/", "⋅", " "]
 
+# a wider alphabet with the end points of every character class of both terminal sets; used
+# for shorter strings
+WIDE = ALPHABET + ["9", "0", "⁹", "⁰", "(", ")", "°", "☉", "ₜ", "ω", "Α", "A", "Z", "a", "z", "*", "E", "%", "\t"]
+
 _P = {}
 
 
@@ -74,12 +78,12 @@ def compare(text, start):
 
 
 def _string_chunk(args):
-    firsts, length = args
+    firsts, length, alphabet = args
     n = 0
     acc = 0
     viols = []
     for f in firsts:
-        for rest in itertools.product(ALPHABET, repeat=length - 1):
+        for rest in itertools.product(alphabet, repeat=length - 1):
             text = f + "".join(rest)
             for start in STARTS:
                 n += 1
@@ -162,7 +166,14 @@ def run(rep, tier):
     acc_str = 0
     for length in range(1, L + 1):
         firsts = rotate(ALPHABET)
-        jobs = [(c, length) for c in chunked(firsts, len(ALPHABET))]
+        jobs = [(c, length, ALPHABET) for c in chunked(firsts, len(ALPHABET))]
+        for r in pmap(_string_chunk, jobs):
+            n_str += r[0]
+            acc_str += r[1]
+            rep.extend(r[2])
+    LW = 4 if thorough else 3
+    for length in range(1, LW + 1):
+        jobs = [(c, length, WIDE) for c in chunked(rotate(WIDE), len(WIDE))]
         for r in pmap(_string_chunk, jobs):
             n_str += r[0]
             acc_str += r[1]
@@ -186,6 +197,8 @@ def run(rep, tier):
             "char_string_accepts": acc_str,
             "max_chars": L,
             "alphabet": ALPHABET,
+            "wide_alphabet": WIDE,
+            "max_chars_wide": LW,
             "samples": [render(("SIGNED_INT", "SYMBOL", "CARAT_EXPONENT", "_DIVIDE", "SYMBOL"), 2), "m⋅ₐ²", "1e-1 μ/m"],
         }
     )
